@@ -188,10 +188,17 @@ pub fn literal_with_dist(pos: usize, d: Dist) -> Machine {
         3 => (Some(Action::Cancel { timer: Timer::All }), (Some(Counter::new_dist(Operation::Increment, d)), None)),
         4 => (None, (None, Some(Counter::new_dist(Operation::Set, d)))),
         5 => (Some(Action::UpdateTimer { replace: true, duration: d, limit: Some(u(0.0, 2.0)) }), (None, None)),
-        _ => (Some(Action::BlockOutgoing { bypass: true, replace: true, timeout: d, duration: c(2.0), limit: Some(c(1.0)) }), (None, None)),
+        6 => (Some(Action::BlockOutgoing { bypass: true, replace: true, timeout: d, duration: c(2.0), limit: Some(c(1.0)) }), (None, None)),
+        // two optional fields of one state set together: the candidate next to a valid sibling
+        7 => (None, (Some(Counter::new_dist(Operation::Decrement, c(1.0))), Some(Counter::new_dist(Operation::Increment, d)))),
+        8 => (None, (Some(Counter::new_dist(Operation::Decrement, d)), Some(Counter::new_dist(Operation::Increment, c(1.0))))),
+        9 => (Some(Action::SendPadding { bypass: false, replace: false, timeout: c(1.0), limit: Some(c(2.0)) }), (Some(Counter::new(Operation::Increment)), Some(Counter::new_dist(Operation::Set, d)))),
+        10 => (Some(Action::BlockOutgoing { bypass: false, replace: false, timeout: c(1.0), duration: c(1.0), limit: Some(d) }), (Some(Counter::new_copy(Operation::Set)), None)),
+        _ => (Some(Action::UpdateTimer { replace: false, duration: c(1.0), limit: Some(d) }), (None, Some(Counter::new_copy(Operation::Set)))),
     };
     Machine { allowed_padding_packets: 1, max_padding_frac: 0.5, allowed_blocked_microsec: 10, max_blocking_frac: 0.5, states: vec![st_map(t.clone(), None, (None, None)), st_map(t, a, ctr)] }
 }
+pub const NPOS: usize = 12;
 pub fn literal_with_fracs(pf: f64, bf: f64) -> Machine {
     let mut m = literal_with_dist(0, c(1.0));
     m.max_padding_frac = pf;
@@ -369,7 +376,7 @@ pub fn candidates(q: bool) -> Vec<Cand> {
     for ty in 0..11 {
         for slot in 0..5 {
             for x in &cs {
-                for pos in 0..7 {
+                for pos in 0..NPOS {
                     if let Some(d) = dist_with(ty, slot, *x) {
                         v.push(Cand { label: format!("dist family {ty} slot {slot} = {x:?} in position {pos}"), m: literal_with_dist(pos, d) });
                     }
@@ -382,7 +389,7 @@ pub fn candidates(q: bool) -> Vec<Cand> {
                     for x in &cs {
                         for y in &cs {
                             if let Some(d) = dist_with2(ty, s1, *x, s2, *y) {
-                                v.push(Cand { label: format!("dist family {ty} slots ({s1},{s2}) = ({x:?},{y:?})"), m: literal_with_dist((s1 + s2) % 7, d) });
+                                v.push(Cand { label: format!("dist family {ty} slots ({s1},{s2}) = ({x:?},{y:?})"), m: literal_with_dist((s1 + s2 + ty) % NPOS, d) });
                             }
                         }
                     }
@@ -431,7 +438,7 @@ pub fn candidates(q: bool) -> Vec<Cand> {
     }
     // limit distributions that must be validated too, invalid dists hidden behind every optional field
     let bad = Dist { dist: DistType::Uniform { low: 2.0, high: 1.0 }, start: 0.0, max: 0.0 };
-    for pos in 0..7 {
+    for pos in 0..NPOS {
         v.push(Cand { label: format!("invalid Uniform(low>high) in position {pos}"), m: literal_with_dist(pos, bad) });
     }
     v
